@@ -103,7 +103,7 @@ def check_world(rec, case, mjm, qpos, c, rng):
       rec.worst("frame_orthonormality", defect / 1e-4)
       if not np.any(F):
         co = t1 not in ("plane", "hfield") and np.linalg.norm(mjd.geom_xpos[g1] - mjd.geom_xpos[g2]) < 1e-6
-        rec.viol("frame-zero" + (":coincident-centres" if co else ""), f"contact frame is all zeros (dist {c['dist'][i]}) {ctx}")
+        rec.viol("frame-zero" + (":coincident-centres" if co else (":dist==0" if abs(float(c["dist"][i])) < 1e-7 else "")), f"contact frame is all zeros (dist {c['dist'][i]}) {ctx}")
       elif defect > 1e-4 or det < 0:
         rec.viol(f"frame-not-orthonormal:{pname}", f"max|F F^T - I|={defect:.3g} det={det:.3g} frame={F.round(5).tolist()} {ctx}")
     b = idx[int(np.argmin(np.asarray(c["dist"])[idx]))]
@@ -126,6 +126,10 @@ def check_world(rec, case, mjm, qpos, c, rng):
           )
       continue
     if ln < 0.5 or coincident:
+      continue
+    if abs(dist) < 2e-6 and num == "ccd":
+      rec.count("unjudged:grazing")  # witness points coincide: the normal of an exactly touching convex pair is undefined
+      deepest[key][3] = True
       continue
     n = n / ln
     o1, o2 = _col.geo_of(mjm, mjd, g1), _col.geo_of(mjm, mjd, g2)
@@ -279,7 +283,7 @@ def run_case(case):
         minsize = min(_minsize(mjm, key[0]), _minsize(mjm, key[1]))
         if abs(ratio - 1) <= 0.3:
           rec.count("metamorphic:ok")
-        elif ratio < 0.0 and dist > -0.5 * minsize:
+        elif ratio < -0.5 and dist > -0.5 * minsize:
           rec.viol(
             f"normal-direction:{'hfield' if t1 == 'hfield' else pname}{mtag}",
             f"world {w} geoms {key}: moving geom2 by {step:.4g} along the reported normal {n} changed the pair's deepest dist from {dist:.6g} to {d2:.6g} "
